@@ -174,6 +174,81 @@ def kw_key(kw):
     return tuple((k, anchor_key(v) if k == "anchor" else str(v)) for k, v in sorted(kw.items()))
 
 
+
+# ---------------------------------------------------------------- polygons reprojected into another CRS
+# (source CRS, target CRS, a centre in source units well inside both areas of use)
+CRS_PAIRS = [("epsg:3577", "epsg:32750", (-1.5e6, -3.3e6)), ("epsg:32750", "epsg:3577", (5e5, 6.5e6)),
+             ("epsg:4326", "epsg:3577", (133.0, -25.0)), ("epsg:3857", "epsg:32633", (1.67e6, 6.1e6)),
+             ("epsg:32633", "epsg:3035", (5e5, 5.5e6)), ("epsg:3035", "epsg:32633", (4.3e6, 3.0e6)),
+             ("epsg:4326", "epsg:32755", (147.0, -35.0)), ("epsg:3577", "epsg:4326", (0.5e6, -3e6))]
+DENSE_N = 256          # reference: points per polygon edge, vertices included
+EPS_PX = 1e-6          # allowance (pixels) for float rounding / transformer differences; measured: 0
+
+
+def crs_polygon(rng):
+    """a non-rectangular polygon (open ring) in the source CRS of a rotated / non-separable CRS pair"""
+    import math
+    src, dst, (cx, cy) = rng.choice(CRS_PAIRS)
+    r = rng.choice([2e3, 7e3, 2e4, 6e4]) * rng.uniform(0.7, 1.3)
+    if src == "epsg:4326":
+        r = r / 1.1e5
+    cx, cy = cx + rng.uniform(-5, 5) * r, cy + rng.uniform(-5, 5) * r
+    kind = rng.choice(["diamond", "diamond", "sliver", "sliver", "triangle", "convex", "rectangle"])
+    if kind == "diamond":
+        pts = [(cx - r, cy), (cx, cy + r), (cx + r, cy), (cx, cy - r)]
+    elif kind == "sliver":
+        w = r / rng.choice([20, 50, 200])
+        sgn = rng.choice([1, -1])
+        pts = [(cx - r, cy - sgn * r), (cx + r, cy + sgn * r), (cx + r + w, cy + sgn * r), (cx - r + w, cy - sgn * r)]
+    elif kind == "triangle":
+        pts = [(cx - r, cy - r / 3), (cx + r / 2, cy + r), (cx + r, cy - r / 2)]
+    elif kind == "convex":
+        k, a0 = rng.randint(5, 9), rng.uniform(0, 6.28)
+        pts = [(cx + r * rng.uniform(.6, 1) * math.cos(a0 + 2 * math.pi * i / k),
+                cy + r * rng.uniform(.6, 1) * math.sin(a0 + 2 * math.pi * i / k)) for i in range(k)]
+    else:
+        pts = [(cx - r, cy - r / 2), (cx - r, cy + r / 2), (cx + r, cy + r / 2), (cx + r, cy - r / 2)]
+    return kind, src, dst, tuple((float(x), float(y)) for x, y in pts)
+
+
+def reference_bbox(pts, src, dst, n=DENSE_N):
+    """independent reference: every edge densified (n points, vertices included), projected with pyproj
+    directly; returns (tight bbox of the projected dense ring, bbox of the projected vertices only)"""
+    import numpy as np
+    from pyproj import Transformer
+    ring = np.asarray(list(pts) + [pts[0]], dtype="float64")
+    seg = []
+    for (x0, y0), (x1, y1) in zip(ring[:-1], ring[1:]):
+        t = np.linspace(0, 1, n, endpoint=False)
+        seg.append(np.stack([x0 + (x1 - x0) * t, y0 + (y1 - y0) * t], axis=1))
+    d = np.concatenate(seg)
+    tr = Transformer.from_crs(src, dst, always_xy=True)
+    X, Y = tr.transform(d[:, 0], d[:, 1])
+    vx, vy = tr.transform(ring[:-1, 0], ring[:-1, 1])
+    return ((float(X.min()), float(Y.min()), float(X.max()), float(Y.max())),
+            (float(min(vx)), float(min(vy)), float(max(vx)), float(max(vy))))
+
+
+def nice_resolution(rng, span):
+    """m * 2^j (m small) close to span / (50..4000 pixels)"""
+    import math
+    want = span / rng.choice([50, 300, 1000, 4000])
+    m = rng.choice([1, 1, 3, 5, 25, 125])
+    return float(m * 2.0 ** round(math.log2(want / m)))
+
+
+def decisions_robust(x0, x1, res, off, tol) -> bool:
+    """True when every floor/ceil/near-integer decision of snap_grid on this axis is at least 1e-6 pixel away
+    from its boundary, so that binary64 rounding of the (inexact) projected coordinates cannot change it"""
+    a, t = abs(F(res)), F(tol)
+    us = [(F(x1) - F(x0)) / a] if off is None else [F(x0) / a - off, F(x1) / a - off]
+    for u in us:
+        d = abs(u - round(u))
+        if d < F(1, 10 ** 6) or abs(d - t) < F(1, 10 ** 6) or abs(d - F(1, 2)) < F(1, 10 ** 6):
+            return False
+    return True
+
+
 # ---------------------------------------------------------------- correspondence cases
 def gen_cases(out, tier):
     from affine import Affine
@@ -185,7 +260,7 @@ def gen_cases(out, tier):
     rng = core.rng("c08")
     mult = 1 if tier == "quick" else 8
     cases: list[str] = []
-    kept = {"res": [], "shape": [], "int": [], "poly": [], "zoom": []}
+    kept = {"res": [], "shape": [], "int": [], "poly": [], "zoom": [], "polycrs": []}
 
     def add(kind, text, canon, nontrivial=True, sample=None):
         cases.append(text)
@@ -328,6 +403,39 @@ def gen_cases(out, tier):
             f"CFromPoly {cbbox(tuple(pb.bbox))} {cresolution(pkw['resolution'])} {calign} {cshape(pkw.get('shape'))} "
             f"{cbool(pkw['tight'])} {canchor(pkw['anchor'])} {cq(F(tol))} {tt}", (tuple(pts), kw_key({k_: v for k_, v in pkw.items() if k_ != 'align'}), str(align)))
         kept["poly"].append((tuple(pts), pkw))
+
+    # --- from_geopolygon with crs= different from the polygon's CRS.  Reprojection itself is an oracle; the
+    #     model is fed the bounding box of the polygon *as projected by the implementation* (Geometry.to_crs), which
+    #     pins down WHICH geometry is reprojected (the polygon, not its bounding box).  Projected coordinates are
+    #     arbitrary floats, so a case is kept for the exact comparison only when every rounding decision is robust.
+    for i in range(70 * mult):
+        kind, src, dst, pts = crs_polygon(rng)
+        poly = polygon(list(pts) + [pts[0]], src)
+        pb = tuple(poly.to_crs(dst).boundingbox.bbox)
+        span = max(pb[2] - pb[0], pb[3] - pb[1])
+        res = nice_resolution(rng, span)
+        if rng.random() < 0.3:
+            res = resxy_(res * rng.choice([1, -1]), res * rng.choice([1, -1, 2]))
+        tight = rng.random() < 0.25
+        anchor = rng.choice(["default", "edge", "center", 0.25, xy_(0.0, 0.5)])
+        tol = rng.choice([None, None, 2.0 ** -7])
+        pkw = dict(resolution=res, anchor=anchor, tight=tight)
+        if tol is not None:
+            pkw["tol"] = tol
+        kept["polycrs"].append((pts, src, dst, pkw))
+        off = anchor_offsets(tight, anchor)
+        rx, ry = res_xy(res)
+        tolv = 0.01 if tol is None else tol
+        if not (decisions_robust(pb[0], pb[2], rx, None if off is None else off[0], tolv)
+                and decisions_robust(pb[1], pb[3], ry, None if off is None else off[1], tolv)):
+            out.count("escape:from_geopolygon_crs")
+            continue
+        tt, kind_ = cres(cgbox, lambda: GeoBox.from_geopolygon(poly, crs=dst, **pkw))
+        add(f"from_geopolygon:crs:{kind_}:{kind}",
+            f"CFromPoly {cbbox(pb)} {cresolution(res)} None ShNone {cbool(tight)} {canchor(anchor)} {cq(F(tolv))} {tt}",
+            (pts, src, dst, kw_key(pkw)), True,
+            {"op": "GeoBox.from_geopolygon", "polygon": [list(p) for p in pts], "polygon_crs": src, "crs": dst,
+             "kwargs": {k: str(v) for k, v in pkw.items()}, "projected_polygon_bbox": list(pb), "result": tt} if i < 2 else None)
 
     # --- zoom_to(resolution=) incl. BoundingBox.from_transform of flipped / sheared grids
     for i in range(300 * mult):
@@ -515,7 +623,40 @@ def p_zoom(shape, A6, resolution):
     return ok and okx and oky, f"zoom_to -> shape={tuple(z.shape)} affine={tuple(Z)[:6]} x:{dx} y:{dy}"
 
 
-PREDICATES = {"resolution": p_resolution, "shape": p_shape, "int_shape": p_int_shape, "polygon": p_polygon, "zoom": p_zoom}
+def p_polygon_crs(pts, src, dst, pkw):
+    """from_geopolygon(poly, crs=dst) with dst != poly.crs, judged against an independent reference: the polygon's
+    edges densified and projected with pyproj directly.  Pixel size exact; edges on the anchor; every side of the
+    grid exceeds the reference's tight bounding box by less than 1 + tol (+EPS_PX) pixel; and covers it up to
+    tol (+ the amount by which curved edges bulge beyond the projected vertices, + EPS_PX) pixel."""
+    from odc.geo.geobox import GeoBox
+    from odc.geo.geom import polygon
+    pts = [tuple(p) for p in pts]
+    rx, ry = res_xy(pkw["resolution"])
+    tol = pkw.get("tol", 0.01)
+    off = anchor_offsets(pkw["tight"], pkw["anchor"])
+    if rx == 0 or ry == 0 or tol < 0 or (off is not None and not all(0 <= v < 1 for v in off)):
+        return True, "outside the property's domain"
+    g = GeoBox.from_geopolygon(polygon(pts + [pts[0]], src), crs=dst, **pkw)
+    (dx0, dy0, dx1, dy1), (vx0, vy0, vx1, vy1) = reference_bbox(pts, src, dst)
+    A = g.affine
+    ok = (A.a, A.b, A.d, A.e) == (rx, 0, 0, ry) and str(g.crs).lower() == dst and g.shape.x >= 1 and g.shape.y >= 1
+    txt = []
+    for name, res, tx, n, lo_ref, hi_ref, lo_v, hi_v, o in (("x", rx, A.c, g.shape.x, dx0, dx1, vx0, vx1, None if off is None else off[0]),
+                                                          ("y", ry, A.f, g.shape.y, dy0, dy1, vy0, vy1, None if off is None else off[1])):
+        a = abs(res)
+        lo = tx if res > 0 else tx + n * res
+        hi = lo + n * a
+        ex_lo, ex_hi = (lo_ref - lo) / a, (hi - hi_ref) / a              # excess over the tight reference box, pixels
+        bulge = max(lo_v - lo_ref, hi_ref - hi_v, 0.0) / a               # curved edges beyond the projected vertices
+        ok = ok and ex_lo < 1 + tol + EPS_PX and ex_hi < 1 + tol + EPS_PX
+        ok = ok and ex_lo >= -(tol + bulge + EPS_PX) and ex_hi >= -(tol + bulge + EPS_PX)
+        if o is not None:
+            ok = ok and (F(tx) / F(a) - o).denominator == 1
+        txt.append(f"{name}: excess low={ex_lo:.4f}px high={ex_hi:.4f}px (bulge {bulge:.4f}px)")
+    return ok, f"shape={tuple(g.shape)} affine={tuple(A)[:6]} reference bbox={dx0, dy0, dx1, dy1}; " + "; ".join(txt)
+
+
+PREDICATES = {"resolution": p_resolution, "shape": p_shape, "int_shape": p_int_shape, "polygon": p_polygon, "polygon_crs": p_polygon_crs, "zoom": p_zoom}
 
 
 def enc_kw(v):
@@ -578,6 +719,8 @@ def search(out, tier, kept):
         run("polygon", pts, pkw)
     for shape, A6, res in kept["zoom"]:
         run("zoom", shape, A6, res)
+    for pts, src, dst, pkw in kept["polycrs"]:
+        run("polygon_crs", pts, src, dst, pkw)
 
 
 # ---------------------------------------------------------------- entry points
@@ -590,7 +733,8 @@ def run(out, tier, scratch):
                 "search: the property's clauses in Fraction arithmetic on the returned GeoBox (shape, affine, boundingbox)")
     out.assumptions += [
         "binary64 arithmetic is modelled by exact rational arithmetic; inputs restricted to (and dynamically checked to lie in) the domain where every float operation of the code is exact",
-        "shapely: the bounding box of a polygon is the min/max of its vertex coordinates (validated on every CPolyBounds case); polygon reprojection (crs=) is not modelled",
+        "shapely: the bounding box of a polygon is the min/max of its vertex coordinates (validated on every CPolyBounds case)",
+        "polygon reprojection (crs=) is an oracle: the model receives the bounding box of the polygon as projected by Geometry.to_crs (so the order 'reproject the polygon, then take its bounding box' IS checked); the result is additionally judged against a dense-edge pyproj reference (predicate polygon_crs)",
         "the CRS attached to the result is not part of the model",
     ]
     cases, kept = gen_cases(out, tier)
@@ -623,7 +767,8 @@ META = {
              "correspondence); floats modelled as exact rationals (binary64 rounding NOT modelled; correspondence and predicates "
              "restricted to inputs on which every float step is exact, checked dynamically).  Oracles NOT proved: shapely's polygon "
              "bounds (contract: min/max of the vertices, validated by CPolyBounds cases), polygon reprojection in from_geopolygon "
-             "(crs= argument; not modelled, not exercised), CRS normalisation, 'utm' string handling of from_bbox.  Invalid anchor "
+             "(crs= argument: the projection is pyproj's; the model is fed the implementation's projected-polygon bounding box and "
+             "the result is judged against an independent dense-edge pyproj reference), CRS normalisation, 'utm' string handling of from_bbox.  Invalid anchor "
              "strings (KeyError) are outside the model.  Domain restrictions in the theorems: resolution components non-zero, "
              "left <= right and bottom <= top (strict for the shape-driven clause), tol >= 0 (tol < 1 for the one-pixel bounds), "
              "anchor fractions in [0,1), shape entries >= 1."),
